@@ -10,6 +10,7 @@ package redis
 
 import (
 	"context"
+	"errors"
 	"crypto/ecdsa"
 	"crypto/elliptic"
 	crand "crypto/rand"
@@ -49,6 +50,12 @@ type c12Step struct {
 	I []int64   `json:"i,omitempty"` // integers (indices, counts, scores, seconds)
 	F []float64 `json:"f,omitempty"` // floats
 	P []c12Step `json:"p,omitempty"` // pipeline: queued commands
+	// V: call form of the variadic (...any) argument of LPush, RPush, SAdd, SRem, ZRem, PFAdd,
+	// Eval, EvalSha: 0 elements one by one, 1 ONE []string as the single argument, 2 ONE []any
+	// as the single argument (go-redis documents both: a single slice argument is flattened),
+	// 3 a slice nested in a slice (not marshalable: both sides must fail alike, nothing is
+	// sent), 4 no element at all. The wrapper and go-redis are given the same arguments.
+	V int `json:"v,omitempty"`
 }
 
 type c12Case struct {
@@ -612,6 +619,24 @@ func c12ErrStr(err error) string {
 	return err.Error()
 }
 
+// errStr: c12ErrStr with the addresses of the twins' own servers made anonymous. An error
+// text that go-redis hands through from a redirecting node ("MOVED 0 127.0.0.1:4711", seen
+// when a cluster pipeline contains a command that cannot be marshalled) names the data
+// node of its own side.
+func (e *c12Env) errStr(err error) string {
+	txt := c12ErrStr(err)
+	if e.tw.fA == nil || err == nil {
+		return txt
+	}
+	for _, m := range []*miniredis.Miniredis{e.tw.mA, e.tw.mB} {
+		txt = strings.ReplaceAll(txt, m.Addr(), "<data node>")
+	}
+	for _, m := range []*miniredis.Miniredis{e.tw.fA, e.tw.fB} {
+		txt = strings.ReplaceAll(txt, m.Addr(), "<front node>")
+	}
+	return txt
+}
+
 // c12Canon renders a result for comparison; nil and empty slices/maps are the same.
 func c12Canon(v any, unordered bool) string {
 	if v == nil {
@@ -816,6 +841,16 @@ func (e *c12Env) step(s c12Step) string {
 	if ent == nil {
 		return "unknown command in case"
 	}
+	if len(ent.ints) > 0 {
+		// a recorded case may come from a 64-bit build: Go int arguments are made to fit
+		// the int of THIS build for both sides (see c12Entry.ints)
+		s.I = append([]int64(nil), s.I...)
+		for _, i := range ent.ints {
+			if i < len(s.I) {
+				s.I[i] = int64(int(s.I[i]))
+			}
+		}
+	}
 	if ent.skip != nil && e.scriptedRaw == "" && ent.skip(e, s) {
 		e.classes["skipped:"+s.C] = true
 		return ""
@@ -823,6 +858,9 @@ func (e *c12Env) step(s c12Step) string {
 	e.ncmd++
 	e.types[ent.typ] = true
 	e.classes["cmd:"+s.C] = true
+	if c12Variadic[s.C] {
+		e.classes[fmt.Sprintf("variadic-form:%d:%s", s.V, s.C)] = true
+	}
 	dead := s.X && s.D != 0
 	if hit := !dead && e.wellTyped(ent, s); hit {
 		e.hits++
@@ -895,7 +933,7 @@ func (e *c12Env) step(s c12Step) string {
 		if len(wireA) == 0 && len(wireB) == 0 && c12ErrStr(gerr) != c12ErrStr(werr) {
 			return fmt.Sprintf("wrapper error %q, go-redis %q", c12ErrStr(gerr), c12ErrStr(werr))
 		}
-	} else if c12ErrStr(gerr) != c12ErrStr(werr) {
+	} else if e.errStr(gerr) != e.errStr(werr) {
 		return fmt.Sprintf("wrapper error %q, go-redis (after documented Nil mapping) %q; wrapper value %s, go-redis value %s",
 			c12ErrStr(gerr), c12ErrStr(werr), c12Canon(got, ent.unordered), c12Canon(want, ent.unordered))
 	}
@@ -972,7 +1010,7 @@ func (e *c12Env) pipeline(s c12Step) string {
 	}
 	defer e.noteErr(gerr)
 	_, werr := e.tw.rawB.Pipelined(refCtx, queue(refCtx, &cb))
-	if c12ErrStr(gerr) != c12ErrStr(werr) {
+	if e.errStr(gerr) != e.errStr(werr) {
 		return fmt.Sprintf("Pipelined returned %q through the wrapper, %q through go-redis (wire: wrapper %s, go-redis %s)", c12ErrStr(gerr), c12ErrStr(werr),
 			c12WireStr(e.tw.wa.take(), false), c12WireStr(e.tw.wb.take(), false))
 	}
@@ -980,7 +1018,7 @@ func (e *c12Env) pipeline(s c12Step) string {
 		return fmt.Sprintf("queued %d commands through the wrapper, %d through go-redis, want %d", len(ca), len(cb), len(s.P))
 	}
 	for i := range ca {
-		if a, b := ca[i].String(), cb[i].String(); a != b {
+		if a, b := e.errStr(errors.New(ca[i].String())), e.errStr(errors.New(cb[i].String())); a != b {
 			return fmt.Sprintf("pipelined command %d: wrapper side %q, go-redis side %q", i, a, b)
 		}
 	}
@@ -1215,16 +1253,20 @@ func (g *c12G) strs(f func() string, lo, hi int) []string {
 // idx: indices / ranks / range ends: {min, -2..5, max} plus values that do not fit 32 bits.
 func (g *c12G) idx() int64 {
 	xs := []int64{-2, -1, 0, 1, 2, 3, 4, 5, -2, -1, 0, 1, 2, 3,
-		-(1 << 62), 1 << 62, 1<<32 + 1, -(1 << 32) - 1}
+		-(1 << 62), 1 << 62, 1<<32 + 1, -(1 << 32) - 1,
+		1<<31 - 1, 1 << 31, -(1 << 31), -(1 << 31) - 1, 1 << 32, -(1 << 32)} // round 9: both sides of the 32-bit limits
 	return xs[g.uni(len(xs))]
 }
 
-// idxInt: the same for the methods that take a Go int (64 bit here).
+// idxInt: the same for the methods that take a Go int (made to fit the int of the build
+// by the entry's `ints` declaration).
 func (g *c12G) idxInt() int64 { return g.idx() }
 
 // score: integer scores {-2..5} plus values beyond 32 bits (exact in float64).
 func (g *c12G) score() int64 {
-	xs := []int64{-2, -1, 0, 1, 2, 3, 4, 5, -2, 0, 1, 3, 1 << 33, -(1 << 33), 1<<33 + 1}
+	xs := []int64{-2, -1, 0, 1, 2, 3, 4, 5, -2, 0, 1, 3, 1 << 33, -(1 << 33), 1<<33 + 1,
+		// round 9: both sides of the 32-bit limits and a unix-millisecond timestamp
+		1<<31 - 1, 1 << 31, -(1 << 31), -(1 << 31) - 1, 1 << 32, -(1 << 32), 1700000000000}
 	return xs[g.uni(len(xs))]
 }
 
@@ -1288,6 +1330,7 @@ func c12GenStep(g *c12G, top bool) c12Step {
 			name := c12PipeNames[g.uni(len(c12PipeNames))]
 			q := c12Table[name].gen(g)
 			q.C = name
+			q.V = g.form(name)
 			s.P = append(s.P, q)
 		}
 		return s
@@ -1295,11 +1338,24 @@ func c12GenStep(g *c12G, top bool) c12Step {
 	name := c12Weighted[g.uni(len(c12Weighted))]
 	s := c12Table[name].gen(g)
 	s.C = name
+	s.V = g.form(name)
 	s.X = g.uni(2) == 1
 	if top {
 		s.D = g.ctxMode(s.X)
 	}
 	return s
+}
+
+// c12Variadic: the wrapper methods with a ...any parameter.
+var c12Variadic = map[string]bool{"LPush": true, "RPush": true, "SAdd": true, "SRem": true, "ZRem": true, "PFAdd": true, "Eval": true, "EvalSha": true}
+
+// form draws the call form of a variadic argument (c12Step.V): half one by one, the rest
+// spread over one []string, one []any, a nested slice and no element.
+func (g *c12G) form(name string) int {
+	if !c12Variadic[name] {
+		return 0
+	}
+	return []int{0, 0, 0, 0, 0, 0, 1, 1, 2, 2, 3, 4}[g.uni(12)]
 }
 
 // ctxMode: about 1 Ctx call in 7 gets a dead context (cancelled or expired).
